@@ -154,6 +154,8 @@ func runC11(c *Ctx, r *Report) {
 	importFoundation(c, r, "C11", "interactive")
 	r.Rule("C11/auth-reset", "after each credential the login loop starts from an empty buffer: a credential is typed once per prompt shown, never again into a session that echoes", 4)
 	checkAuthBufferReset(c, r, "C11/auth-reset")
+	r.Rule("C11/one-answer-per-pass", "on the true edge of a credential prompt's match the login loop types nothing but that prompt's own credential: a secret is never typed at a prompt that echoes", 4)
+	checkOneAnswerPerPass(c, r, "C11/one-answer-per-pass")
 	r.Rule("C11/T1", "inside a write gate the logged value depends on the data only when the redaction flag is false", 1)
 	r.Rule("C11/T2", "every gate call with tainted data passes constant true, the enclosing gate's own flag, or the HideInput of the same event", 5)
 	r.Rule("C11/T3", "every interactive event literal with tainted ChannelInput has HideInput: true", 1)
